@@ -102,6 +102,16 @@ def run(ch, idx, tier):
     P = entry.project()
     use_progs = entry.meta["has_progset"] and ch.flip("with_programs", 0.5)
     instr = at.ProgramInstructions(start_year=float(P.settings.sim_start + 2)) if use_progs else None
+    if use_progs and ch.flip("alloc_overwrite_for_some_programs", 0.4):
+        # the instructions overwrite the spending of a subset of the programs (time-varying for the first)
+        pn_ = list(P.progsets[0].programs.keys())
+        sub_ = ch.shuffle("alloc_overwrite.progs", pn_)[: 1 + ch.choose("alloc_overwrite.n", len(pn_))]
+        alloc_ = {}
+        for j_, q_ in enumerate(sub_):
+            sd_ = P.progsets[0].programs[q_].spend_data
+            b_ = float(sd_.interpolate(instr.start_year)[0]) if sd_.has_data else 100.0
+            alloc_[q_] = at.TimeSeries([instr.start_year, instr.start_year + 2], [b_ * 1.5, b_ * 0.5]) if j_ == 0 else b_ * 2.0
+        instr = at.ProgramInstructions(start_year=instr.start_year, alloc=alloc_)
     res = P.run_sim(P.parsets[0], P.progsets[0] if use_progs else None, instr, result_name="shared")
     two_results = ch.flip("two_results", 0.2)
     res_b = None
@@ -526,6 +536,8 @@ def run(ch, idx, tier):
         elif kind == 1:
             outputs = ch.shuffle("programs.subset", prog_names)[: 1 + ch.choose("programs.n", len(prog_names))]
         else:
+            if len(prog_names) >= 2 and ch.flip("programs.package", 0.6):
+                quantity = "spending"
             outputs = [{"package": prog_names[:2]}] + prog_names[2:3] if (quantity == "spending" and len(prog_names) >= 2) else prog_names[:1]
         kw = {"nan_outside": ch.flip("programs.nan_outside", 0.5)}
         tb = ch.choose("programs.t_bins", 3)
@@ -553,6 +565,14 @@ def run(ch, idx, tier):
                 trace.update(np.asarray(a.vals, dtype=float).tobytes())
                 if not (_close(a.vals, b.vals) and _close(a.tvec, b.tvec)):
                     violate("answer_depends_on_other_requests", "PlotData.programs", {"series": o, "quantity": quantity, "shared": np.asarray(a.vals)[:4].tolist(), "isolated": np.asarray(b.vals)[:4].tolist(), "call": history[-1]})
+            if "package" in outs and quantity == "spending":
+                # a package reports the total of its members
+                members = [at.PlotData.programs(pristine(), outputs=[m_], quantity=quantity, **kw).series[0] for m_ in prog_names[:2]]
+                pk_ = [s_ for s_ in d.series if s_.output == "package"][0]
+                tot_ = np.asarray(members[0].vals, dtype=float) + np.asarray(members[1].vals, dtype=float)
+                if not _close(pk_.vals, tot_, rtol=1e-9, atol=1e-9):
+                    violate("sum_is_not_sum_of_parts", "PlotData.programs[package]", {"quantity": quantity, "package": np.asarray(pk_.vals)[:4].tolist(), "members_total": tot_[:4].tolist(), "call": history[-1]})
+                bump("probe:package_total_checked")
         except Exception:
             bump("query_refused")
         bump("probe:program_quantities_checked")
